@@ -118,6 +118,7 @@ func runC14(e *Env) {
 	// ---- command paths
 	checkCmdKeys(e, p)
 	checkConfigDecoder(e, p)
+	checkUnpackTargetEmpty(e, p)
 }
 
 // globalOf: v is a load of a package-level variable.
@@ -770,6 +771,14 @@ func checkConfigDecoder(e *Env, p *load.Program) {
 					switch {
 					case strings.HasSuffix(path, "go-ucfg/yaml"):
 						n++
+						// the document that is parsed is the whole file: NewConfigWithFile(path), or NewConfig over bytes that
+						// are the unsliced result of ReadFile / ReadAll of the opened file (seed C15f: io.LimitReader - a policy
+						// cut at 1 MiB is parsed without complaint and its tail - groups, bad names - is ignored)
+						if call, isCall := in.(*ssa.Call); isCall && flow.Callee(call) == cal && cal.Name() == "NewConfig" && len(call.Call.Args) >= 1 {
+							why := wholeFileBytes(call.Call.Args[0], 0)
+							r.Check(why == "", "E4.cfgpath", load.FuncName(f)+"/whole-document", p.Pos(call.Pos()), "the parsed document is the whole content of the policy file",
+								"the bytes handed to yaml.NewConfig are not the whole content of the policy file ("+why+"): a policy that continues behind the part that is read is loaded without its tail and without an error, so the loaded policy is not the one the file denotes")
+						}
 					case strings.HasSuffix(path, "go-ucfg/json"), path == "encoding/json" && (cal.Name() == "Unmarshal" || cal.Name() == "Decode"):
 						r.Bad("E4.cfgpath", load.FuncName(f)+"/"+cal.Pkg.Pkg.Name()+"."+cal.Name(), p.Pos(in.Pos()),
 							"the sandbox reads a policy through a JSON decoder that converts every number to float64 before it reaches Condition.Value (uint64): operands that are not float64-exact (above 2^53) are rounded without an error, so the loaded policy compiles to a different program than the equivalent in-memory policy")
@@ -779,4 +788,162 @@ func checkConfigDecoder(e *Env, p *load.Program) {
 		}
 	}
 	r.Check(n >= 1, "E4.cfgpath", "sandbox/yaml-loader", "", "the sandbox loads its policy through go-ucfg/yaml (64-bit integers stay exact)", "no call into go-ucfg/yaml found in the sandbox: the documented configuration path is not used")
+}
+
+// checkUnpackTargetEmpty (E4.cfgpath …/unpack-target-empty): go-ucfg *merges* a configuration into the value it is handed:
+// a slice that already has elements is merged element by element (the file's first group into the first group that is
+// already there, its names index-wise into the names that are already there). "Loaded through the configuration path …
+// compiles to the same program as the equivalent in-memory policy" therefore needs the target of Unpack to be empty: in
+// the sandbox's functions, the variable handed to (*ucfg.Config).Unpack is a local that nothing writes - no store, no field
+// or element store, no call that receives its address - before the Unpack call (seed C14g: a built-in baseline policy the
+// file is unpacked over).
+func checkUnpackTargetEmpty(e *Env, p *load.Program) {
+	r := e.R
+	n := 0
+	for _, f := range p.SrcFuncs(load.PkgSandbox) {
+		for _, ci := range flow.Calls(f) {
+			call, ok := ci.(*ssa.Call)
+			if !ok {
+				continue
+			}
+			cal := flow.Callee(call)
+			if cal == nil || cal.Name() != "Unpack" || cal.Pkg == nil || !strings.HasSuffix(cal.Pkg.Pkg.Path(), "go-ucfg") || len(call.Call.Args) < 2 {
+				continue
+			}
+			n++
+			key := load.FuncName(f) + "/unpack-target-empty"
+			v := call.Call.Args[1]
+			if mi, ok := v.(*ssa.MakeInterface); ok {
+				v = mi.X
+			}
+			al, ok := v.(*ssa.Alloc)
+			if !ok {
+				r.Unknown("E4.cfgpath", key, p.Pos(call.Pos()), "the value handed to Unpack is not the address of a local variable: whether it is empty is not decided")
+				continue
+			}
+			// everything derived from the local's address
+			derived := map[ssa.Value]bool{al: true}
+			for changed := true; changed; {
+				changed = false
+				for _, b := range f.Blocks {
+					for _, in := range b.Instrs {
+						switch x := in.(type) {
+						case *ssa.FieldAddr:
+							if derived[x.X] && !derived[x] {
+								derived[x] = true
+								changed = true
+							}
+						case *ssa.IndexAddr:
+							if derived[x.X] && !derived[x] {
+								derived[x] = true
+								changed = true
+							}
+						}
+					}
+				}
+			}
+			bad := ""
+			var badPos ssa.Instruction
+			for _, b := range f.Blocks {
+				for _, in := range b.Instrs {
+					if in == ssa.Instruction(call) || !instrReaches(in, call) {
+						continue
+					}
+					switch x := in.(type) {
+					case *ssa.Store:
+						if derived[x.Addr] {
+							if k, isConst := x.Val.(*ssa.Const); isConst && (k.Value == nil || k.IsNil()) {
+								continue // zero value
+							}
+							bad, badPos = "a store into the variable", in
+						}
+					case ssa.CallInstruction:
+						for _, a := range x.Common().Args {
+							w := a
+							if mi, ok := w.(*ssa.MakeInterface); ok {
+								w = mi.X
+							}
+							if derived[w] {
+								bad, badPos = "a call that receives its address ("+calleeNameCI(x)+")", in
+							}
+						}
+					}
+				}
+			}
+			if bad != "" {
+				r.Bad("E4.cfgpath", key, p.Pos(badPos.Pos()), "the variable the configuration is unpacked into is written before Unpack ("+bad+"): go-ucfg merges the file into what is already there - slices element by element - so the loaded policy is not the policy of the file and compiles to another program than the equivalent in-memory policy")
+			} else {
+				r.OK("E4.cfgpath", key, p.Pos(call.Pos()), "the configuration is unpacked into a local that nothing writes before the call")
+			}
+		}
+	}
+	r.Check(n >= 1, "E4.cfgpath", "sandbox/unpack-call", "", "the sandbox unpacks the configuration with go-ucfg's Unpack", "no call of go-ucfg's Unpack found in the sandbox")
+}
+
+// wholeFileBytes: "" when v is the complete content of a file (os.ReadFile, io.ReadAll over os.Open / a bufio.Reader around
+// it, a bytes.Buffer filled by ReadFrom/io.Copy is not modelled), else the reason.
+func wholeFileBytes(v ssa.Value, depth int) string {
+	if depth > 6 {
+		return "too deep"
+	}
+	strip := func(v ssa.Value) ssa.Value {
+		for i := 0; i < 8; i++ {
+			switch x := v.(type) {
+			case *ssa.MakeInterface:
+				v = x.X
+			case *ssa.ChangeInterface:
+				v = x.X
+			case *ssa.ChangeType:
+				v = x.X
+			case *ssa.Convert:
+				v = x.X
+			case *ssa.Extract:
+				if x.Index != 0 {
+					return v
+				}
+				v = x.Tuple
+			case *ssa.UnOp:
+				if al, ok := x.X.(*ssa.Alloc); ok && x.Op == token.MUL {
+					if st := flow.OnlyStore(al); st != nil {
+						v = st.Val
+						continue
+					}
+				}
+				return v
+			default:
+				return v
+			}
+		}
+		return v
+	}
+	v = strip(v)
+	c, ok := v.(*ssa.Call)
+	if !ok {
+		if _, isSlice := v.(*ssa.Slice); isSlice {
+			return "a slice expression cuts the content"
+		}
+		return fmt.Sprintf("the bytes come from %T, which is not a read of the whole file", v)
+	}
+	switch {
+	case flow.CalleeIs(c, "os", "ReadFile"), flow.CalleeIs(c, "io/ioutil", "ReadFile"):
+		return ""
+	case flow.CalleeIs(c, "io", "ReadAll"), flow.CalleeIs(c, "io/ioutil", "ReadAll"):
+		rd := strip(c.Call.Args[0])
+		for i := 0; i < 3; i++ {
+			rc, ok := rd.(*ssa.Call)
+			if !ok {
+				return fmt.Sprintf("ReadAll of %T", rd)
+			}
+			switch {
+			case flow.CalleeIs(rc, "os", "Open"):
+				return ""
+			case flow.CalleeIs(rc, "bufio", "NewReader"), flow.CalleeIs(rc, "bufio", "NewReaderSize"):
+				rd = strip(rc.Call.Args[0])
+			default:
+				return "ReadAll of the result of " + calleeName(rc) + ", which need not deliver the whole file"
+			}
+		}
+		return "reader chain too deep"
+	}
+	return "result of " + calleeName(c)
 }
